@@ -2,5 +2,6 @@
 package props
 
 import (
+	_ "verif/harness/props/c13"
 	_ "verif/harness/props/selftest"
 )
